@@ -15,7 +15,7 @@ func init() {
 	register(&explore.Prop{
 		ID: "C07", Level: levelMC, Explorer: "E1 input-space enumerator + E2 path mode (visit orders with one reader)",
 		Rule: "DV-S (<=3 docs; per doc every subset of {x,y,\"\"} in doc-value field b, d in {absent,x}, a in {absent,y}) built and self-merged: readers on every ordered subset of {a,b,d,unknown} x every visiting order of length <=3 with one reader (each order also after a warm-up visit: the reader's first call does not carry state over); DV-C (1023..1026, 2047..2049 docs x 8 placement patterns: empty chunk, only last doc of a chunk, ...) built / loaded / merged with renumbering across the 1024 boundary: every order of length <=3 (thorough <=4) over the documents of interest {0,1,1023,1024,1025,2047,2048,last} and every order of length 4..5 over {0,1024,last}; MIX batches; merges of segments with inconsistent doc-value flags (per-source oracle); " +
-			"distinct = (segment, form, field list, visit order); non-trivial = some visit returns >=1 term; counters.cross_chunk_or_backward = orders with consecutive visits in different chunks or backwards",
+			"the ZOO: every member with more than 6 documents is walked completely by one reader (all documents upwards, chunk edges downwards), incl. dv-header-widths (19 500 documents) and dv-incompressible-5mib; distinct = (segment, form, field list, visit order); non-trivial = some visit returns >=1 term; counters.cross_chunk_or_backward = orders with consecutive visits in different chunks or backwards",
 		Assumptions: commonAssumptions, Budget: qBudget, Run: runC07,
 	})
 }
